@@ -113,9 +113,11 @@ def plan(tier, seed):
             items.append(dict(group="explicit", n=n, basis=b, dict="custom-own"))
             items.append(dict(group="model", n=n, basis=b, dict="custom-own"))
     items.append(dict(group="dictionary"))
+    for first in range(len(HIST_OPS)):
+        items.append(dict(group="dict-history", first=first, depth=4 if tier == "quick" else 5))
     # chunk: many tiny cases per worker call
-    chunks = []
-    small = [it for it in items]
+    chunks = [it for it in items if it.get("group") == "dict-history"]
+    small = [it for it in items if it.get("group") != "dict-history"]
     step = 6
     for i in range(0, len(small), step):
         chunks.append(dict(cases=small[i:i + step]))
@@ -273,8 +275,79 @@ def check_dictionary(acc, case):
     acc.outcome("dictionary")
 
 
+HIST_MATS = ["H", "S", "G"]
+HIST_OPS = [("set", m) for m in HIST_MATS] + [("call", path, mode) for path in ("rotate_psi", "rotate_rho", "inner", "probs") for mode in ("own", "arg-fresh", "arg-reused")]
+
+
+def run_history(acc, seq):
+    """non-initial states: the meaning of a user-added letter changes between calls (dictionary mutated
+    in place, or a new dictionary object passed); every call must use the CURRENT matrices"""
+    L = lib()
+    U_ = L.unitaries
+    n = 2
+    space = tbits(n)
+    ud0 = L.unitaries.create_dict(A=c2t(R.CUSTOM_U["H"]))
+    cst = build_state("complex", [n, 2], next(iter(param_assignments("complex", [n, 2], npat=1, dev=0, q0=1)))[1], unitary_dict=ud0)
+    mst = build_state("mixed", [n, 1, 1], next(iter(param_assignments("mixed", [n, 1, 1], npat=1, dev=0, q0=1)))[1], unitary_dict=ud0)
+    reused = L.unitaries.create_dict(A=c2t(R.CUSTOM_U["H"]))
+    cur = "H"
+    psi = L.cplx.numpy(call(cst.psi, space))
+    rho = L.cplx.numpy(call(mst.rho, space, space))
+    for step, op in enumerate(seq):
+        if op[0] == "set":
+            cur = op[1]
+            for d in (cst.unitary_dict, mst.unitary_dict, reused):
+                d["A"] = c2t(R.CUSTOM_U[cur])
+            continue
+        _, path, mode = op
+        acc.count("comparisons")
+        for basis in ("AZ", "XA"):
+            ud = dict(R.DEFAULT_U, A=R.CUSTOM_U[cur])
+            U = R.basis_unitary(basis, ud)
+            kw = {}
+            if mode == "arg-fresh":
+                kw = dict(unitaries=L.unitaries.create_dict(A=c2t(R.CUSTOM_U[cur])))
+            elif mode == "arg-reused":
+                kw = dict(unitaries=reused)
+            if path == "rotate_psi":
+                got, exp = L.cplx.numpy(call(U_.rotate_psi, cst, basis, space, **kw)), U @ psi
+            elif path == "rotate_rho":
+                got, exp = L.cplx.numpy(call(U_.rotate_rho, mst, basis, space, **kw)), U @ rho @ U.conj().T
+            elif path == "inner":
+                got, exp = L.cplx.numpy(call(U_.rotate_psi_inner_prod, cst, basis, space, **kw)), U @ psi
+            else:
+                got, exp = call(U_.rotate_rho_probs, mst, basis, space, **kw).numpy(), np.real(np.diag(U @ rho @ U.conj().T))
+            if not close(got, exp, TOL):
+                acc.viol(f"{path if path.startswith('rotate') else ('rotate_psi_inner_prod' if path == 'inner' else 'rotate_rho_probs')}:stale-dictionary:{mode}",
+                         dict(group="dict-history", sequence=[list(o) for o in seq[:step + 1]]), observed=got, expected=exp, detail=dict(basis=basis, current_A=cur))
+                return False
+    return True
+
+
+def run_history_item(acc, item):
+    import itertools as it
+    first = HIST_OPS[item["first"]]
+    for ln in range(0, item["depth"]):
+        for rest in it.product(HIST_OPS, repeat=ln):
+            seq = (first,) + rest
+            if seq[-1][0] != "call":
+                continue
+            acc.ev(1, nontrivial=any(o[0] == "set" for o in seq))
+            ok = run_history(acc, seq)
+            acc.outcome(sha([list(o) for o in seq][-2:]))
+            if not ok:
+                return
+    acc.sample(dict(group="dict-history", first=list(first), depth=item["depth"]), cap=1)
+
+
 def run_item(item):
     acc = Acc()
+    if item.get("group") == "dict-history":
+        run_history_item(acc, item)
+        acc.states = acc.evaluations
+        acc.transitions = acc.counters.get("comparisons", 0)
+        acc.traces = acc.evaluations
+        return acc
     for case in item["cases"]:
         check_case(acc, case)
     acc.sample(item["cases"][0], cap=1)
@@ -287,5 +360,9 @@ def run_item(item):
 
 def replay(case):
     acc = Acc()
+    if case.get("group") == "dict-history":
+        acc.ev(1)
+        run_history(acc, [tuple(o) for o in case["sequence"]])
+        return acc
     check_case(acc, case)
     return acc
